@@ -1,6 +1,7 @@
 SPECIFICATION ISpec
 CONSTANTS
   Procs = {1,2,3}
+  Objs = {1}
   Keys = {1,2}
   MaxCalls = 2
   Variant = "ok"
